@@ -513,3 +513,109 @@ def all_packings(W, H, rows, cap=200000):
     g["gen_packings"](arr.astype(np.int64), W, H, seq, y, y2, tmp_e, tmp_s,
                       mins, maxs, res, store, bad)
     return inst, res, mins, maxs, store[:res[3]], bad
+
+
+_TOBJ = {}
+
+
+def tree_objective_driver():
+    """All decoder outputs of an instance through the objective kernels."""
+    if _TOBJ:
+        return _TOBJ
+    import numba
+    d = drivers()
+    g = gen_drivers()
+    dec1 = d["dec1"]
+    dec2 = d["dec2"]
+    eval_real = g["eval_real"]
+    from mc.jit import compile_module
+    omodel = compile_module(P, ["objective_models"])["objective_models"]
+
+    @numba.njit(cache=False)
+    def tree_objectives(inst, inst64, W, H, xbuf, y, bs, be, tmp_e, tmp_s,
+                        mins, maxs, res, bad):
+        nt = inst.shape[0]
+        n = y.shape[0]
+        remaining = np.zeros(nt, np.int64)
+        choice = np.zeros(n + 1, np.int64)
+        grid = np.zeros((n, W, H), np.int8)
+        cnt = np.zeros(n, np.int64)
+        area = np.zeros(n, np.int64)
+        sky = np.zeros(n, np.int64)
+        exp = np.zeros(7, np.int64)
+        got = np.zeros(7, np.int64)
+        for o in range(7):
+            for kk in range(n + 1):
+                mins[o, kk] = -1
+                maxs[o, kk] = -1
+        for t in range(nt):
+            remaining[t] = inst64[t, 2]
+        depth = 0
+        choice[0] = 0
+        while depth >= 0:
+            if depth == n:
+                for enc in (1, 2):
+                    if enc == 1:
+                        k = dec1(xbuf, y, inst, W, H)
+                    else:
+                        k = dec2(xbuf, y, inst, W, H, bs, be)
+                    res[0] += 1
+                    omodel(y, n, k, W, H, grid, cnt, area, sky, exp)
+                    tmp_e.fill(111)
+                    tmp_s.fill(-7)
+                    eval_real(y, W, H, tmp_e, tmp_s, got)
+                    res[1] += 7
+                    for o in range(7):
+                        if got[o] != exp[o]:
+                            if res[2] == 0:
+                                res[5] = o
+                                res[6] = got[o]
+                                res[7] = exp[o]
+                                for i in range(n):
+                                    for j in range(6):
+                                        bad[i, j] = y[i, j]
+                            res[2] += 1
+                        v = got[o]
+                        if mins[o, k] < 0 or v < mins[o, k]:
+                            mins[o, k] = v
+                        if maxs[o, k] < 0 or v > maxs[o, k]:
+                            maxs[o, k] = v
+                depth -= 1
+                it = xbuf[depth]
+                remaining[(it if it > 0 else -it) - 1] += 1
+                continue
+            c = choice[depth]
+            if c >= 2 * nt:
+                depth -= 1
+                if depth >= 0:
+                    it = xbuf[depth]
+                    remaining[(it if it > 0 else -it) - 1] += 1
+                continue
+            choice[depth] = c + 1
+            t = c // 2
+            if remaining[t] <= 0:
+                continue
+            remaining[t] -= 1
+            xbuf[depth] = (t + 1) if (c % 2 == 0) else -(t + 1)
+            depth += 1
+            choice[depth] = 0
+    _TOBJ["tree_objectives"] = tree_objectives
+    return _TOBJ
+
+
+def decoder_packings(W, H, rows):
+    """Objective values over all decoder outputs (both encodings)."""
+    t = tree_objective_driver()
+    inst = make_instance(W, H, rows)
+    arr = np.asarray(inst)
+    n = inst.n_items
+    y = np.zeros((n, 6), arr.dtype)
+    mins = np.zeros((7, n + 1), np.int64)
+    maxs = np.zeros((7, n + 1), np.int64)
+    res = np.zeros(16, np.int64)
+    bad = np.zeros((n, 6), np.int64)
+    t["tree_objectives"](arr, arr.astype(np.int64), W, H,
+                         np.zeros(n, arr.dtype), y, np.zeros(n, arr.dtype),
+                         np.zeros(n, arr.dtype), np.zeros(n, arr.dtype),
+                         np.zeros(n, np.int64), mins, maxs, res, bad)
+    return inst, res, mins, maxs, None, bad
